@@ -100,7 +100,7 @@ class BaseAuth:
     _failed_auth_delay: float
     _type: str
     _cache_logins: bool
-    _cache_successful: dict                 # login -> (digest, time_ns)
+    _cache_successful: dict                 # login -> (digest, time_ns, user)
     _cache_successful_logins_expiry: int
     _cache_failed: dict                     # digest_failed -> (time_ns, login)
     _cache_failed_logins_expiry: int
@@ -257,7 +257,7 @@ class BaseAuth:
                 return ("", self._type + " / cached")
             if self._cache_successful.get(login):
                 # login found in cache "successful"
-                (digest_cache, time_ns_cache) = self._cache_successful[login]
+                (digest_cache, time_ns_cache, user_cache) = self._cache_successful[login]
                 digest = self._cache_digest(login, password, str(time_ns_cache))
                 if digest == digest_cache:
                     age_success = int((time_ns - time_ns_cache) / 1000 / 1000 / 1000)
@@ -268,7 +268,7 @@ class BaseAuth:
                         digest = ""
                     else:
                         logger.debug("Login successful cache entry for user+password found: '%s' (age: %d sec)", login, age_success)
-                        result = login
+                        result = user_cache
                         result_from_cache = True
                 else:
                     logger.debug("Login successful cache entry for user+password not matching: '%s'", login)
@@ -286,7 +286,7 @@ class BaseAuth:
                         digest = self._cache_digest(login, password, str(time_ns))
                     # store successful login in cache
                     self._lock.acquire()
-                    self._cache_successful[login] = (digest, time_ns)
+                    self._cache_successful[login] = (digest, time_ns, result)
                     self._lock.release()
                     logger.debug("Login successful cache for user set: '%s'", login)
                     if self._cache_failed.get(digest_failed):
